@@ -39,3 +39,7 @@ G = ['do_blank_lines applies blank_line_max(pc, nl_max) to every newline chunk n
      'newlines_cleanup_braces, newline_add_*, eat_blanks_* (brace_pair.cpp) and the four-pass loop in uncrustify_file: not under contract',
      'main() calls too_big_for_nl_max() iff nl_max > 0, after the config is loaded and before any source is read (10-line call site, read, not sliced)',
      'Chunk::GetHead/GetTail/Delete/CopyAndAddBefore are ghost models of the list ends; the list primitives themselves are C02-K1']
+
+sys.path.insert(0, os.path.join(os.path.dirname(os.path.abspath(__file__)), '..', '..', 'tools'))
+import replay_lib  # noqa: E402
+REPLAY = replay_lib.make_replay(replay_lib.scenario_blank_lines, replay_lib.scenario_too_big)
